@@ -137,7 +137,7 @@ def sequence(ctx, k, kind, n_clients, thorough_placements=False):
                 choices += ["append", "append"]
             if server is not None:
                 # cache-heavy mix: reads through the cache race with writes (own and foreign) and with the delivery of their invalidations
-                choices += ["inval"] * 3 + ["inval-all"] * 2 + ["cached"] * 5 + ["set"] * 2 + (["nested"] * 2 if kind == "rdict" else ["append"] * 2)
+                choices += ["inval"] * 3 + ["inval-all"] * 2 + ["cached"] * 5 + ["set"] * 2 + (["nested"] * 2 if kind == "rdict" else ["append"] * 2) + ["flush"]
                 if rng.random() < 0.6:
                     key = rng.choice(KEYS[:2])
             op = rng.choice(choices)
@@ -152,7 +152,7 @@ def sequence(ctx, k, kind, n_clients, thorough_placements=False):
                 if server is None:
                     return False
                 tid = getattr(clients[ci].store, "tracker_id", None)
-                return any(t == tid and ("ns:" + kk) in keys for t, keys in server.pending_invalidations)
+                return any(t == tid and (keys is None or ("ns:" + kk) in keys) for t, keys in server.pending_invalidations)
             try:
                 if op == "set":
                     v = copy.deepcopy(rng.choice(values)); rec.append(v)
@@ -280,6 +280,12 @@ def sequence(ctx, k, kind, n_clients, thorough_placements=False):
                             return
                     else:
                         rec.append("none pending")
+                elif op == "flush":
+                    # an operator flushes the keyspace: everything is gone for every client; cached views may lag until the (null) invalidation is delivered
+                    server.flushdb()
+                    for ci in range(n_clients):
+                        model.view(ci).clear()
+                    ctx.count("keyspace_flushes"); nontrivial = True
                 elif op == "inval-all":
                     n = 0
                     while server.pending_invalidations:
@@ -360,12 +366,16 @@ def persistence_run(ctx, k):
 
 def corrupt_file_run(ctx, k):
     ctx.evaluation(); ctx.count("corrupt_file_starts")
-    garbage = ["{not json", "", "[1, 2", "\x00\x01\x02", "null"][k % 5]
+    GARBAGE = ["{not json", "", "[1, 2", "\x00\x01\x02", "null", b"\xff\xfe\x00binary\x80\x81", '{"a": "caf\u00e9"}'.encode("utf-16"), '{"Comment": "na\u00efve"}'.encode("utf-8")[:-4],
+               b"\x80", '{"a": "\u00e9"}'.encode("latin-1")]
+    garbage = GARBAGE[k % len(GARBAGE)]
+    ctx.count("corrupt_file_kind:" + ("text" if isinstance(garbage, str) else "bytes that are not UTF-8"))
     with World(seed=ctx.seed, store="json") as w:
         w.api("CreateStateMachine", {"name": "m", "definition": json.dumps(PASS), "roleArn": ROLE})
         w.crash_engine("i1")
-        with open(w.store_url, "w") as f:
+        with open(w.store_url, "w" if isinstance(garbage, str) else "wb") as f:
             f.write(garbage)
+        garbage = garbage if isinstance(garbage, str) else garbage.hex()
         try:
             w.start_engine("i1")
         except BaseException as e:
@@ -414,7 +424,7 @@ def run(ctx):
         i += 1
         if ctx.mine(i):
             persistence_run(ctx, k)
-    for k in range(ctx.pick(5, 10)):
+    for k in range(ctx.pick(10, 20)):
         i += 1
         if ctx.mine(i):
             corrupt_file_run(ctx, k)
